@@ -14,11 +14,12 @@ import Driver.CmdEvo
 import Driver.CmdCliff
 import Driver.CmdCirc
 import Driver.CmdSolver
+import Driver.CmdConv
 open Graphiq Graphiq.Proto
 
 def dispatchers : List (String → Args → Option String) :=
   [CmdTab.dispatch, CmdStab.dispatch, CmdDag.dispatch, CmdWire.dispatch, CmdExport.dispatch,
-   CmdGraph.dispatch, CmdDM.dispatch, CmdEvo.dispatch, CmdCliff.dispatch, CmdCirc.dispatch, CmdSolver.dispatch]
+   CmdGraph.dispatch, CmdDM.dispatch, CmdEvo.dispatch, CmdCliff.dispatch, CmdCirc.dispatch, CmdSolver.dispatch, CmdConv.dispatch]
 
 def handle (line : String) : String :=
   let (cmd, a) := parseLine line
